@@ -11,6 +11,7 @@ def prepare(rp, ce, params):
     if pc0 != 0: return None, "start pc other than 0 is not realised by the replay program"
     ops, costs, k = [], {}, 0
     kind_costs = {}
+    exact = 0
     while True:
         res = None
         for t in ce.get("trace") or []:
@@ -19,6 +20,7 @@ def prepare(rp, ce, params):
         c = m.get(f"cost{k}", 0)
         if res == 0:
             ops.append(f"Stack::Push:{100 + k}"); costs[100 + k] = c
+            exact += c
         elif res == 4:
             cg = m.get(f"cgas{k}", 0)
             n = next((n for n in (1, 2, 3, 4) if cg % n == 0 and cg // n <= limit), None)
@@ -27,6 +29,7 @@ def prepare(rp, ce, params):
             ops += [f"Stack::Push:{n}", "Compute::Compute:0", f"Stack::Push:{700 + k}", "Compute::ComputeEnd:0"]
             costs[n] = 0; costs[700 + k] = cg // n
             kind_costs["Compute(Compute)"] = c
+            exact += c + cg          # Push n costs 0, ComputeEnd costs 0 (default), children cg in total
             break
         else:
             return None, f"op result kind {res} of the model is not realised by the replay program"
@@ -39,6 +42,7 @@ def prepare(rp, ce, params):
         if out.get("result") == "ok":
             g = int(out["gas"])
             if g > limit: return True, f"real Vm::exec returns Ok({g}) above the total limit {limit}"
-            return False, f"real gas {g} within limit {limit}"
+            if g != exact: return True, f"real Vm::exec returns Ok({g}) but the executed operations cost {exact} in total"
+            return False, f"real gas {g} = exact sum, within limit {limit}"
         return False, "real code returns an error: " + out.get("err", "")[:120]
     return fields, judge
